@@ -142,7 +142,7 @@ def handle (j : Json) : Except String Json := do
         ("blockOf", Json.arr (t.blockOf.map fun (k, v) => Json.arr #[Json.str k, Json.str v]).toArray),
         ("fragOf", Json.arr (t.fragOf.map fun (k, v) => Json.arr #[Json.str k, toJson v]).toArray),
         ("frags", toJson t.frags),
-        ("dfs", Json.arr ((dfsEdges g).map fun (a, b) => Json.arr #[Json.str a, Json.str b]).toArray)])
+        ("edges", Json.arr ((graphEdges g).map fun (a, b) => Json.arr #[Json.str a, Json.str b]).toArray)])
   | "spec" =>
     -- the specification (RHS of C01_layout / C01_interactions) and its verdict on an observed molecule
     let ff ← ffOf (← j.getObjVal? "ff")
